@@ -480,7 +480,16 @@ func (r *Reader) PageCount() (int, error) {
 	if err := r.ensurePageTree(); err != nil {
 		return 0, err
 	}
-	return r.pageTree.Count()
+	count, err := r.pageTree.Count()
+	if err != nil {
+		return 0, err
+	}
+	// Every page is an object of its own: a count above the number of objects
+	// cannot be true, and callers size their work by it.
+	if n := r.xrefTable.Size(); count > n {
+		return 0, fmt.Errorf("page count %d exceeds the number of objects (%d)", count, n)
+	}
+	return count, nil
 }
 
 // GetPage returns the page at the given index (0-based)
